@@ -865,6 +865,12 @@ func judgeLoad(o *sim.Outcome, st *sim.Stats, codec gen.Codec, fn, kind string, 
 		}
 		return "openerr"
 	}
+	if trusted && kind == "multi" {
+		// a corrupted copy AND a read error, with storage declared trusted: the corruption may make the
+		// item end early (a flipped length byte), so that the decoder has all it needs before the error
+		// arrives -- whether the result is "partial" cannot be told without the hash the caller waived
+		return "trusted-unjudged"
+	}
 	delivered := rd.Delivered
 	surfaced := rd.Ended == "err"
 	if rd.R.ErrAt == len(B) && rd.R.ErrAt >= 0 {
